@@ -6,6 +6,7 @@ import (
 	"fmt"
 	"io"
 	"math/big"
+	"sync"
 
 	"github.com/free5gc/ike/message"
 	"github.com/free5gc/ike/security"
@@ -846,6 +847,48 @@ func c10(c *core.Ctx) {
 			k.Count(fmt.Sprintf("fault_at_read_%d", failAt), 1)
 			k.Distinct(fmt.Sprintf("fault|%d|%d|%d", kl, failAt, mode))
 		}
+		// right after the refused encryptions (no collection in between): overlapping Encrypt calls on INDEPENDENT
+		// cipher objects, each with its own key and plaintexts; every ciphertext decrypts to its own plaintext
+		var wg sync.WaitGroup
+		bad := make([]string, 8)
+		for g := 0; g < 8; g++ {
+			key := k.R.Bytes(kl)
+			c2, cerr := newCipher(kl, key)
+			if cerr != nil {
+				return
+			}
+			base := k.R.Bytes(40 + 16*g)
+			wg.Add(1)
+			go func(g int) {
+				defer wg.Done()
+				defer func() {
+					if x := recover(); x != nil {
+						bad[g] = fmt.Sprint("panic: ", x)
+					}
+				}()
+				for n := 0; n < 120 && bad[g] == ""; n++ {
+					pt := append([]byte{byte(g), byte(n)}, base[:n%len(base)]...)
+					ct, err := c2.Encrypt(append([]byte{}, pt...))
+					if err != nil || len(ct) < 32 {
+						bad[g] = fmt.Sprintf("encrypt #%d: %v (%d octets)", n, err, len(ct))
+						return
+					}
+					raw, derr := ref.CBCDecrypt(key, ct[:16], ct[16:])
+					if derr != nil || len(raw) < len(pt)+1 || !bytes.Equal(raw[:len(pt)], pt) || int(raw[len(raw)-1]) != len(raw)-len(pt)-1 {
+						bad[g] = fmt.Sprintf("encrypt #%d of goroutine %d: the ciphertext does not decrypt (textbook AES-CBC) to its plaintext + padding", n, g)
+					}
+				}
+			}(g)
+		}
+		wg.Wait()
+		k.Eval(8 * 120)
+		for _, b := range bad {
+			if b != "" {
+				k.Violate("mismatch", "overlapping-encryptions-after-a-refused-one", b, M{"key_len": kl, "mode": mode})
+				return
+			}
+		}
+		k.Count("overlapping_encryptions_after_refused_ones", 1)
 	})
 	// a source that only ever delivers short reads (never fails): the IV must still be 16 fresh octets of the stream
 	c.Family("short-read-source", c.N(60, 3000), func(k *core.Case) {
